@@ -85,6 +85,12 @@ def _ident(x):
     return x
 
 
+def _c_ulong(x):
+    """ctypes.c_ulong(v) keeps v modulo 2^64 silently (cffi would raise OverflowError): model the weaker back-end"""
+    v = getattr(x, '_value', x)
+    return v & 0xFFFFFFFFFFFFFFFF
+
+
 def c_ubyte(c):
     ok = core.sym_and(0 <= c, c < 256)
     if not ok:
@@ -875,7 +881,7 @@ def install():
     m.get_c_string = get_c_string
     m.VoidPointer = FakeVoidPointer
     m.c_size_t = _ident
-    m.c_ulong = _ident
+    m.c_ulong = _c_ulong
     m.c_ulonglong = _ident
     m.c_uint = _ident
     m.c_ubyte = c_ubyte
@@ -901,6 +907,26 @@ def CHACHA_BLOCK(key, tail):
     return UF("CHACHA20_BLOCK", [key, tail], 64)
 
 
+_CHACHA_STICKY = None
+
+
+def _chacha_sticky():
+    """the contract model follows the C source: does chacha20_core() keep the state exhausted after ERR_MAX_DATA?
+    (read from /repo/src/chacha20.c so that the model never claims more than the code does; the real C
+    is decided by LLSYM in C11/chacha_seq)"""
+    global _CHACHA_STICKY
+    if _CHACHA_STICKY is None:
+        import os
+        import re
+        try:
+            src = open(os.path.join(os.environ.get("VERIF_REPO", "/repo"), "src", "chacha20.c")).read()
+            core_src = src[src.index("static int chacha20_core"):src.index("EXPORT_SYM int chacha20_encrypt")]
+            _CHACHA_STICKY = bool(re.search(r"usedKeyStream\s*=\s*sizeof", core_src))
+        except Exception:
+            _CHACHA_STICKY = False
+    return _CHACHA_STICKY
+
+
 @register("Crypto.Cipher._chacha20")
 class ChaCha20Lib(object):
     def chacha20_init(self, out, key, key_len, nonce, nonce_len):
@@ -923,7 +949,11 @@ class ChaCha20Lib(object):
         st['ctr'] = st['ctr'] + 1
         wrapped = (st['ctr'] == lim)
         if wrapped:         # may fork when the counter is symbolic
-            st['ctr'] = 0
+            if _chacha_sticky():
+                st['ctr'] = lim - 1        # chacha20.c: the state stays exhausted (no restart from block 0)
+                st['used'] = 64
+            else:
+                st['ctr'] = 0
             return ERR_MAX_DATA
         return 0
 
